@@ -11,17 +11,28 @@ Open Scope list_scope.
    for either version of the code: every dimension and variable of E is still
    there, unchanged and in place, and the global attributes are the same. *)
 Theorem C17_preserve :
-  forall vr nc4 e orig new, extends e (fst (append vr nc4 e orig new)).
+  forall vr nc4 o e orig new, extends e (fst (append vr nc4 o e orig new)).
 Proof. exact preserve. Qed.
 Print Assumptions C17_preserve.
+
+(* In particular the Conventions attribute, whatever Conventions option or
+   forced Conventions value comes with the request.  The model transcribes
+   _write_global_attributes with its guard (written only when the pass is
+   neither the dry run nor the one after it): [le_write_globals] is the
+   proof obligation that a change of that guard breaks. *)
+Theorem C17_conventions_kept :
+  forall vr nc4 o e orig new,
+  assoc "Conventions" (d_gatts (fst (append vr nc4 o e orig new))) = assoc "Conventions" (d_gatts e).
+Proof. exact conventions_kept. Qed.
+Print Assumptions C17_conventions_kept.
 
 (* A refused request leaves the file as it was: the decision is taken before
    anything is opened for writing (the trace is: read, raise). *)
 Theorem C17_refuse_first :
-  forall vr nc4 e orig new, refuse vr nc4 orig new = true ->
-  let s := append_run vr nc4 e orig new in
+  forall vr nc4 o e orig new, refuse vr nc4 orig new = true ->
+  let s := append_run vr nc4 o e orig new in
   w_file s = e /\ w_log s = [ERead; ERaise] /\ no_modification (w_log s) /\
-  append vr nc4 e orig new = (e, Refused).
+  append vr nc4 o e orig new = (e, Refused).
 Proof. exact refuse_first. Qed.
 Print Assumptions C17_refuse_first.
 
@@ -33,17 +44,48 @@ Theorem C17_refusal_is_documented :
 Proof. exact refusal_is_documented. Qed.
 Print Assumptions C17_refusal_is_documented.
 
-(* The old fields.  FULL STATEMENT WANTED: for E' = append E (read E) S1,
-   every field read from E is read from E' and is equal.  PROVED HERE (partial):
-   the frame property of the abstract reader - if E' extends E by variables
-   that do not refer to an old data variable v and do not take a name that
-   v's field looked up without success, then v is still a data variable and
-   is assembled from exactly the same variables, dimensions and global
-   attributes, to any depth.  That the writer's new variables meet the two
-   side conditions when [orig] really is what cfdm reads from E, and that
-   cfdm.read is the abstract reader, rest on the oracle (old fields compared
-   with cfdm.equals before / after on every generated case). *)
-Theorem C17_old_fields_partial :
+(* The old fields.  For E' = append E (re-read of E) S1: every data variable
+   of E is still a data variable of E' and the field assembled from it by the
+   reader of the model (the variable with its attributes, the global
+   attributes, the sizes of its dimensions, and the whole closure of the
+   variables named by reference attributes or standing as coordinate
+   variables, to any depth [fuel]) is the same.  Hypothesis [covers]: the dry
+   run over the re-read has registered every name of E as in use and no data
+   variable of E as a coordinate-like variable - a computable condition on
+   (E, re-read), evaluated on every generated case with the real cfdm.read
+   (Run.check_covers); [C17_old_fields_needs_covers_refuted] shows that it
+   cannot be dropped.  Proved by an invariant carried through every function
+   of the appending pass (new variables get names that are not names of E and
+   never refer to a data variable of E).  Code version: any with the
+   dimension-name repair e0a05b9 (without it a new coordinate variable may
+   take a name of E unchecked). *)
+Theorem C17_old_fields :
+  forall vr nc4 o e orig new fuel v,
+  fx_dimname vr = true -> covers vr e orig = true -> In v (data_vars e) ->
+  In v (data_vars (fst (append vr nc4 o e orig new))) /\
+  view fuel (fst (append vr nc4 o e orig new)) v = view fuel e v.
+Proof. exact old_fields_kept. Qed.
+Print Assumptions C17_old_fields.
+
+Theorem C17_old_fields_iterated :
+  forall vr nc4 reread fuel news e v,
+  fx_dimname vr = true -> (forall e', covers vr e' (reread e') = true) -> In v (data_vars e) ->
+  In v (data_vars (append_seq vr nc4 reread e news)) /\
+  view fuel (append_seq vr nc4 reread e news) v = view fuel e v.
+Proof. exact old_fields_kept_seq. Qed.
+Print Assumptions C17_old_fields_iterated.
+
+Theorem C17_old_fields_needs_covers_refuted :
+  covers new_code file_z [f_lying] = false /\
+  snd (append new_code true no_opts file_z [f_lying] [f_newaux]) = Done /\
+  map v_name (data_vars file_z) = ["tb"] /\
+  map v_name (data_vars (fst (append new_code true no_opts file_z [f_lying] [f_newaux]))) = ["new"].
+Proof. exact old_fields_needs_covers_refuted. Qed.
+Print Assumptions C17_old_fields_needs_covers_refuted.
+
+(* The frame property of the reader that the theorem above rests on, for any
+   extension of a file (not only the writer's). *)
+Theorem C17_old_fields_frame :
   forall fuel e e' vv v,
   extends e e' -> d_vars e' = d_vars e ++ vv ->
   In v (data_vars e) ->
@@ -52,14 +94,22 @@ Theorem C17_old_fields_partial :
   (forall w, In w vv -> ~ In (v_name v) (ref_names w)) ->
   In v (data_vars e') /\ view fuel e' v = view fuel e v.
 Proof. exact old_fields_frame. Qed.
-Print Assumptions C17_old_fields_partial.
+Print Assumptions C17_old_fields_frame.
+
+(* _netcdf_name always finds a name that is in use neither as a variable nor
+   as a dimension (the search cannot run out: pigeonhole), registers it and
+   changes nothing else. *)
+Theorem C17_netcdf_name_fresh :
+  forall base s, exists n, netcdf_name base s = (n, upd_names (cons n) s) /\ ~ In n (existing s).
+Proof. exact netcdf_name_fresh. Qed.
+Print Assumptions C17_netcdf_name_fresh.
 
 (* Every property of an appended field is either written on its data variable
    (not in the set left off) or held by the file as a global attribute with
    that very value. *)
 Theorem C17_props_kept_or_held :
-  forall gatts fs f a x, In f fs -> prop_of (f_props f) a = Some x ->
-  kept_or_held gatts (compute_gl new_code gatts fs) a x.
+  forall o gatts fs f a x, In f fs -> prop_of (f_props f) a = Some x ->
+  kept_or_held gatts (compute_gl new_code o gatts fs) a x.
 Proof. exact props_kept_or_held. Qed.
 Print Assumptions C17_props_kept_or_held.
 
@@ -115,10 +165,10 @@ Print Assumptions C17_formula_terms_written.
    the owning coordinate equals one already in the file, its variable is
    shared, the terms end up as extra data variables. *)
 Theorem C17_formula_terms_on_shared_coordinate_refuted :
-  snd (append new_code true file_z [fz_plain] [fz]) = Done /\
-  refs_of (fst (append new_code true file_z [fz_plain] [fz])) "z" = [] /\
+  snd (append new_code true no_opts file_z [fz_plain] [fz]) = Done /\
+  refs_of (fst (append new_code true no_opts file_z [fz_plain] [fz])) "z" = [] /\
   map v_name (data_vars file_z) = ["tb"] /\
-  map v_name (data_vars (fst (append new_code true file_z [fz_plain] [fz]))) = ["tb"; "a"; "ta"].
+  map v_name (data_vars (fst (append new_code true no_opts file_z [fz_plain] [fz]))) = ["tb"; "a"; "ta"].
 Proof. exact formula_terms_on_shared_coordinate_refuted. Qed.
 Print Assumptions C17_formula_terms_on_shared_coordinate_refuted.
 
@@ -130,7 +180,7 @@ Proof. exact iterated. Qed.
 Print Assumptions C17_iterated.
 
 Theorem C17_iterated_refused_step :
-  forall vr nc4 reread e n r, refuse vr nc4 (reread e) n = true ->
+  forall vr nc4 reread e n r, refuse vr nc4 (reread e) (snd n) = true ->
   append_seq vr nc4 reread e (n :: r) = append_seq vr nc4 reread e r.
 Proof. exact iterated_refused_step. Qed.
 Print Assumptions C17_iterated_refused_step.
@@ -138,7 +188,7 @@ Print Assumptions C17_iterated_refused_step.
 (* A completed append has created at least one variable per appended field
    (each field gets its own data variable), for any number of fields. *)
 Theorem C17_one_variable_per_field :
-  forall vr nc4 e orig new, snd (append vr nc4 e orig new) = Done ->
-  (length (d_vars e) + length new <= length (d_vars (fst (append vr nc4 e orig new))))%nat.
+  forall vr nc4 o e orig new, snd (append vr nc4 o e orig new) = Done ->
+  (length (d_vars e) + length new <= length (d_vars (fst (append vr nc4 o e orig new))))%nat.
 Proof. exact one_variable_per_field. Qed.
 Print Assumptions C17_one_variable_per_field.
